@@ -1271,6 +1271,31 @@ func ruleC08_3(c *Ctx, r *Rep) {
 		r.OK("C08.3", key, fn.Pos(), "names are always quoted")
 		return
 	}
+	// the decision may have been moved into a private predicate (`if isIdentifier(name) { return name }`): then that
+	// predicate is judged, its `return true` exits taking the place of the unquoted return
+	targets := []*ssa.BasicBlock{ret.Block()}
+	for _, cd := range edgeConds(ret.Block()) {
+		call, isCall := cd.V.(*ssa.Call)
+		if !isCall || !cd.Pol || len(call.Call.Args) != 1 || resolve(call.Call.Args[0]) != ssa.Value(fn.Params[0]) {
+			continue
+		}
+		h := call.Call.StaticCallee()
+		if h == nil || !c.inModule(h) || len(h.Blocks) == 0 || h.Object() == nil || h.Object().Exported() || len(h.Params) != 1 {
+			continue
+		}
+		var ts []*ssa.BasicBlock
+		for _, hr := range returnsOf(h) {
+			if k, isK := retResult(hr, 0).(*ssa.Const); isK && k.Value != nil && k.Value.String() == "true" {
+				ts = append(ts, hr.Block())
+			} else if !isK {
+				ts = nil
+				break
+			}
+		}
+		if len(ts) > 0 {
+			fn, targets = h, ts
+		}
+	}
 	// every path to the unquoted return establishes name != "": directly, or through a flag all of whose
 	// non-false sources are such a test
 	isNonEmptyTest := func(v ssa.Value, pol bool) bool {
@@ -1312,22 +1337,25 @@ func ruleC08_3(c *Ctx, r *Rep) {
 		return false
 	}
 	nonEmpty, sawInit := true, false
-	npaths := pathsTo(fn, ret.Block(), func(cs []Cond) {
-		ok := false
-		for _, cd := range cs {
-			if isNonEmptyTest(cd.V, cd.Pol) {
-				ok = true
+	npaths := 0
+	for _, tgt := range targets {
+		npaths += pathsTo(fn, tgt, func(cs []Cond) {
+			ok := false
+			for _, cd := range cs {
+				if isNonEmptyTest(cd.V, cd.Pol) {
+					ok = true
+				}
+				if _, isPhi := cd.V.(*ssa.Phi); isPhi && cd.Pol && flagOK(cd.V, 0, map[ssa.Value]bool{}) {
+					ok = true
+				}
 			}
-			if _, isPhi := cd.V.(*ssa.Phi); isPhi && cd.Pol && flagOK(cd.V, 0, map[ssa.Value]bool{}) {
-				ok = true
+			if ok {
+				sawInit = true
+			} else {
+				nonEmpty = false
 			}
-		}
-		if ok {
-			sawInit = true
-		} else {
-			nonEmpty = false
-		}
-	})
+		})
+	}
 	if npaths == 0 {
 		nonEmpty = false
 	}
